@@ -347,7 +347,7 @@ def act_in(act):
     return {k: v for k, v in act.items() if k != "out"}
 
 
-def cover_walks(g, rng, maxlen=30, limit=None, budget_edges=None):
+def cover_walks(g, rng, maxlen=30, limit=None, budget_edges=None, budget_s=1200):
     """Walks from an initial state that together cover every edge of g.
     Greedy: take an uncovered out-edge if there is one, otherwise jump along a shortest path to the
     nearest state that has one.  Each walk is a list of edge indices (<= maxlen unless a single
@@ -394,7 +394,12 @@ def cover_walks(g, rng, maxlen=30, limit=None, budget_edges=None):
                 dq.append(d)
         return None
     dead_inits = set()
+    t_start = time.time()
     while remaining > 0:
+        if time.time() - t_start > budget_s:
+            # very large graphs: the greedy cover gets slow when only far-away edges are left; the cover stays partial
+            log("cover_walks: time budget of %ds reached with %d of %d edges covered" % (budget_s, total - remaining, total))
+            break
         live = [i for i in inits if i not in dead_inits]
         if not live:
             break
